@@ -90,6 +90,7 @@ package snapshot
 //@   let pval = varintVal(d.data[p:])
 //@   loop 0 step tag_is_a_varint: varintOK(d.data[fstart:]) && tag == int(fnum) && uint64(wireType) == wt
 //@   loop 0 step other_fields_skipped: fnum != 2 ==> offset == p + fieldPayloadLen(d.data[p:], wt)
+//@   at_call csproto.DecodeVarint#0 assert never_reads_a_tag_at_the_end_of_the_data: offset < len(d.data)
 //@   loop 0 step stops_at_entries: fnum == 2 ==> offset == p
 //@   loop 0 invariant last_field_read: tag == 2 ==> varintOK(d.data[fstart:]) && fnum == 2 && uint64(wireType) == wt && offset == p
 //@   let qstart = int(ghost_prev_fs)
@@ -139,6 +140,8 @@ package snapshot
 //@ func LoadData
 //@   modifies heap
 //@   at_make assert allocation_proportional_to_the_blob: makeLen == 0 && makeCap <= 10*len(data)
+//@   after_call gzip.NewReader#0 ghost loc_gz := refOf(ret0)
+//@   at_call io.Copy#0 assert decompresses_the_whole_stream: refOf(arg1) == ghost_loc_gz
 //@ func NewDBIFromData
 //@   nopanic
 
